@@ -1,20 +1,22 @@
 prop("C05",
      level_text="Lean 4 theorems over the executable IPAM model M3 (Galaxy/Model/Ipam.lean: every crdIpam mutator as its explicit "
                 "sequence of store calls + memory update, under a fault plan = any set of failing call indices and a crash plan, "
-                "with explicit choice arguments where Go iterates a map). Proved for ALL states, arguments, admissible choices and "
-                "plans: agree_init, agree_preserved (every move: 9 mutators, admin reserve/unreserve, event delivery, restart; "
-                "error returns and partially applied ReserveIP/ReleaseIPs included; a fired crash plan is followed by restart), "
-                "agree_preserved_plain (no side condition for all moves except event delivery and multi-range allocation), "
-                "agree_preserved_allocRanges_single_fault, agree_reachable (induction over histories), restart_reconstructs, "
+                "with explicit choice arguments where Go iterates a map; admin reservations are store writes whose watch events "
+                "are delivered by separate later moves). Proved for ALL states, arguments, admissible choices and plans: "
+                "agree_init; agree_preserved (one step, NO side condition: the 9 mutators incl. error returns, partially applied "
+                "ReserveIP/ReleaseIPs and rollback-delete failures, admin moves, restart; a fired crash plan is followed by "
+                "restart); agree_preserved_deliver; inv_preserved + inv_implies_agree + agree_reachable (history level: the "
+                "inductive invariant Inv = MemOK + a per-address invariant over the pending watch events is preserved by EVERY "
+                "move incl. event delivery at any later time, so Agree holds in every reachable state); restart_reconstructs; "
                 "crash_restart_safe + restart_establishes_agree (structural invariant after restart from ANY state and crash "
-                "point), fact_* (store-before-memory, lock modes, rollback shape regenerated from /repo). Counter theorems for "
-                "the two places where the code leaves the property: stale_unassign_event_counter, "
-                "rollback_delete_fault_counter, rollback_second_fault_counter. IPAM level only: the pod-level clause "
-                "(every existing pod keeps its IP after restart + resync) is model M4's.",
-     level_note="agree_preserved carries the side condition StepOK (True except: a delivered watch event must still describe "
-                "the store; no fault may hit a rollback delete of AllocateInSubnetsAndIPRange). Both deviations are genuine "
-                "defects reproduced on the real code by the harness and listed as known findings "
-                "(stale-reserved-watch-event-desyncs-cache, rollback-delete-fault-leaks-object).",
+                "point); fact_* (store-before-memory, lock modes, rollback shape, reserved-label check regenerated from /repo). "
+                "Counter theorems on the pre-fix shapes selected by the regenerated facts: stale_unassign_event_counter, "
+                "rollback_delete_fault_counter; admin_recreate_race_counter shows the environment assumption is needed. IPAM "
+                "level only: the pod-level clause (every existing pod keeps its IP after restart + resync) is model M4's.",
+     level_note="Full on the model. Only assumption: EnvOK — the administrator does not create a reservation for an address while "
+                "a watch event for that address is still undelivered (otherwise a stale add event overwrites what IPAM wrote: "
+                "counter theorem). Both defects this check found (late delete event of a re-used reserved address; ignored "
+                "rollback delete error) are fixed in /repo (68e0a5a, e50aa1c); their replays are regression corpus files.",
      technique="Lean 4 theorems over an executable model + regenerated structural facts (factgen ipam) + differential "
                "correspondence of every step (result class, choices, full memory/store/pending dump) of the REAL crdIpam on a "
                "fault-injecting clientset decorator, with every fault index and crash point of every operation enumerated "
@@ -26,6 +28,7 @@ prop("C05",
               "get/update/delete of a missing name fail); watch events of labelled objects are delivered by the harness "
               "through the handler crdIpam registered on a captured informer"],
      assumptions=["store names are canonical dotted-quad IPv4 strings; admin reservations carry key, policy and an empty attribute",
+                  "EnvOK: no reservation is created for an address while a watch event for it is still on its way (generator obeys it; histories which do not are marked, not judged)",
                   "configurations passed fipCheck (ranges inside the pod subnet): freshFree_wf shows the model's extra filter is "
                   "then the identity; pools pairwise disjoint as address sets in the correspondence runs",
                   "a restarted process reloads the configuration it last loaded successfully; its fresh informer's initial add "
